@@ -19,9 +19,11 @@ def run(chk):
     o1 = chk.ob('header-rule', 'after every authenticated response, for every status and all header byte strings within the bound: interval == min(N,86400)s iff the value is a plain decimal u64, else absent; Ok iff 2xx')
     o2 = chk.ob('announce-persist-commit', 'a changed interval is announced (ProtocolStateChange with the new value), persisted (context with the new value) and committed, in this order, before the exchange returns; an unchanged one causes no event and no storage traffic')
     o3 = chk.ob('no-response-unchanged', 'construction, transport and authentication failures leave the interval unchanged and announce/persist nothing')
-    D1, D2, D3 = Decide(chk, ex, o1), Decide(chk, ex, o2, cross=False), Decide(chk, ex, o3, cross=False)
+    o4 = chk.ob('exchange-frame', 'of the in-memory context the exchange changes the poll interval only: the failure counter and the last-contact time are untouched on every path (so the context it persists when the interval changes carries the bookkeeping of the last completed check)')
+    D1, D2, D3, D4 = Decide(chk, ex, o1), Decide(chk, ex, o2, cross=False), Decide(chk, ex, o3, cross=False), Decide(chk, ex, o4, cross=False)
     domaha.monitor_c07(E, D1, D2, D3)
-    for D in (D1, D2, D3):
+    domaha.monitor_frame(E, D4)
+    for D in (D1, D2, D3, D4):
         f = D.done()
         if f and f[0] == 'violated':
             describe_cex(ex, D, f, E)
